@@ -1123,4 +1123,716 @@ def translate_scenes_image() -> tuple[str, dict]:
     return '\n'.join(lines), side
 
 
-GEN = {'CmdSeqFmt_gen': translate_cmdseq, 'SmdTpl_gen': translate_smd, 'ScenesImg_gen': translate_scenes_image}
+# ================================================================================================ text writers: field census
+
+class _TextCensus:
+    """Classify every value a text export function interpolates into what it writes.
+
+    class : FEscQuoted  "...{escape_text(x)}..." between double quotes
+            FEscBare    escape_text(x) not between quotes (the reader only un-escapes inside quotes)
+            FRawQuoted  "{x}" between double quotes, written as it is
+            FRawBare    {x} not between quotes
+            FCondQuoted quoted when a _needs_quotes-style test says so (VMT)
+    type  : TyStr (free text) / TyNum / TyWord (enum member, constant table entry, object with a fixed vocabulary) /
+            TyPair (join_float: "a, b") / TyConst (a str parameter that every caller passes a literal for)
+    """
+
+    def __init__(self, rel: str, file_names: tuple[str, ...] = ('file', 'f')) -> None:
+        self.rel = rel
+        self.tree = ast.parse(src_text(rel))
+        self.file_names = file_names
+        self.ann: dict[str, set[str]] = {}
+        self.const_tables: set[str] = set()
+        self.funcs: dict[str, ast.FunctionDef] = {}
+        self.sites: list[tuple[int, str, str, str]] = []   # (line, class, type, source)
+        for n in self.tree.body:
+            if isinstance(n, ast.Assign) and len(n.targets) == 1 and isinstance(n.targets[0], ast.Name):
+                self._maybe_table(n.targets[0].id, n.value)
+            elif isinstance(n, ast.AnnAssign) and isinstance(n.target, ast.Name) and n.value is not None:
+                self._maybe_table(n.target.id, n.value)
+            elif isinstance(n, ast.FunctionDef):
+                self.funcs[n.name] = n
+            elif isinstance(n, ast.ClassDef):
+                for st in ast.walk(n):
+                    if isinstance(st, ast.AnnAssign):
+                        nm = st.target.id if isinstance(st.target, ast.Name) else st.target.attr if isinstance(st.target, ast.Attribute) else None
+                        if nm:
+                            self.ann.setdefault(nm, set()).add(ast.unparse(st.annotation))
+                    elif isinstance(st, ast.FunctionDef):
+                        self.funcs[f'{n.name}.{st.name}'] = st
+                        if st.name == '__init__':
+                            for a in st.args.args + st.args.kwonlyargs:
+                                if a.annotation is not None:
+                                    self.ann.setdefault(a.arg, set()).add(ast.unparse(a.annotation))
+                        if any(isinstance(d, ast.Name) and d.id == 'property' for d in st.decorator_list) and st.returns is not None:
+                            self.ann.setdefault(st.name, set()).add(ast.unparse(st.returns))
+
+    def _maybe_table(self, name: str, v: ast.AST) -> None:
+        """Module-level dict whose keys and values are constants or enum members: a fixed vocabulary."""
+        if isinstance(v, ast.Dict) and v.keys and all(isinstance(k, (ast.Constant, ast.Attribute)) for k in v.keys) \
+                and all(isinstance(x, (ast.Constant, ast.Attribute)) for x in v.values):
+            self.const_tables.add(name)
+        if isinstance(v, ast.DictComp):
+            self.const_tables.add(name)
+
+    # ---- typing of an expression
+    def type_of(self, e: ast.AST, env: dict[str, str], where: str) -> str:
+        if isinstance(e, ast.Constant):
+            return 'TyWord' if isinstance(e.value, str) else 'TyNum'
+        if isinstance(e, ast.BoolOp) and isinstance(e.op, ast.Or) and len(e.values) == 2 and isinstance(e.values[1], ast.Constant):
+            return self.type_of(e.values[0], env, where)
+        if isinstance(e, ast.Name):
+            if e.id in env:
+                return env[e.id]
+            raise TranslateError(f'{self.rel}: {where}: written name `{e.id}` has no known type')
+        if isinstance(e, ast.Subscript):
+            if isinstance(e.value, ast.Name) and e.value.id in self.const_tables:
+                return 'TyWord'
+            return self.type_of(e.value, env, where)
+        if isinstance(e, ast.Call):
+            fn = ast.unparse(e.func)
+            if fn == 'join_float':
+                return 'TyPair'
+            if isinstance(e.func, ast.Attribute) and e.func.attr in ('lower', 'upper', 'casefold') and not e.args:
+                return self.type_of(e.func.value, env, where)
+            if fn in ('len', 'int', 'round'):
+                return 'TyNum'
+            raise TranslateError(f'{self.rel}: {where}: written call `{ast.unparse(e)}` not recognised')
+        if isinstance(e, ast.Attribute):
+            if e.attr == 'name' and isinstance(e.value, ast.Attribute) and self._kind(e.value.attr) == 'TyWord':
+                return 'TyWord'        # enum member name
+            return self._kind(e.attr, where)
+        raise TranslateError(f'{self.rel}: {where}: written expression `{ast.unparse(e)}` not recognised')
+
+    def _kind(self, attr: str, where: str | None = None) -> str:
+        anns = self.ann.get(attr)
+        if not anns:
+            if where is None:
+                return '?'
+            raise TranslateError(f'{self.rel}: {where}: attribute `{attr}` has no annotation in this module')
+        if any(re.search(r'\bstr\b', a) for a in anns):
+            return 'TyStr'
+        if all(re.fullmatch(r'(Optional\[)?(int|float|bool)(\])?( \| None)?', a) for a in anns):
+            return 'TyNum'
+        return 'TyWord'
+
+    # ---- pieces of a written string
+    def pieces(self, e: ast.AST, env: dict[str, str], tpl: dict[str, list], where: str) -> list[list]:
+        """-> list of alternatives; each alternative is a list of ('lit', text) / ('fld', esc: bool, type, source)."""
+        if isinstance(e, ast.Constant) and isinstance(e.value, str):
+            return [[('lit', e.value)]]
+        if isinstance(e, ast.IfExp):
+            return self.pieces(e.body, env, tpl, where) + self.pieces(e.orelse, env, tpl, where)
+        if isinstance(e, ast.BinOp) and isinstance(e.op, ast.Add):
+            return [a + b for a in self.pieces(e.left, env, tpl, where) for b in self.pieces(e.right, env, tpl, where)]
+        if isinstance(e, ast.JoinedStr):
+            alts: list[list] = [[]]
+            for v in e.values:
+                if isinstance(v, ast.Constant):
+                    alts = [a + [('lit', v.value)] for a in alts]
+                    continue
+                if v.conversion != -1:
+                    raise TranslateError(f'{self.rel}: {where}: !r / !s conversion in a written f-string')
+                inner = v.value
+                if v.format_spec is not None:
+                    spec = ''.join(x.value for x in v.format_spec.values if isinstance(x, ast.Constant))
+                    if not re.fullmatch(r'\.?\d*[dfg]?', spec):
+                        raise TranslateError(f'{self.rel}: {where}: format spec {spec!r} not recognised')
+                    alts = [a + [('fld', False, 'TyNum', ast.unparse(inner))] for a in alts]
+                    continue
+                if isinstance(inner, ast.Name) and inner.id in tpl:
+                    alts = [a + b for a in alts for b in tpl[inner.id]]
+                    continue
+                if isinstance(inner, ast.Name) and env.get(inner.id) == 'layout':
+                    alts = [a + [('lit', '')] for a in alts]
+                    continue
+                if isinstance(inner, ast.Call) and ast.unparse(inner.func) == 'escape_text' and len(inner.args) == 1:
+                    ty = self.type_of(inner.args[0], env, where)
+                    alts = [a + [('fld', True, ty, ast.unparse(inner.args[0]))] for a in alts]
+                    continue
+                ty = self.type_of(inner, env, where)
+                alts = [a + [('fld', False, ty, ast.unparse(inner))] for a in alts]
+            return alts
+        if isinstance(e, ast.Name) and e.id in tpl:
+            return tpl[e.id]
+        if isinstance(e, (ast.Attribute, ast.Name, ast.Subscript, ast.Call)):
+            return [[('fld', False, self.type_of(e, env, where), ast.unparse(e))]]
+        raise TranslateError(f'{self.rel}: {where}: written expression `{ast.unparse(e)}` not recognised')
+
+    def record(self, alts: list[list], line: int, cond: dict[str, str] | None = None) -> None:
+        for alt in alts:
+            flat: list = []
+            for p in alt:       # merge literals
+                if p[0] == 'lit' and flat and flat[-1][0] == 'lit':
+                    flat[-1] = ('lit', flat[-1][1] + p[1])
+                elif not (p[0] == 'lit' and p[1] == ''):
+                    flat.append(p)
+            for i, p in enumerate(flat):
+                if p[0] != 'fld':
+                    continue
+                before = flat[i - 1][1] if i > 0 and flat[i - 1][0] == 'lit' else ''
+                after = flat[i + 1][1] if i + 1 < len(flat) and flat[i + 1][0] == 'lit' else ''
+                quoted = before.endswith('"') and after.startswith('"')
+                if cond and p[3] in cond:
+                    klass = 'FCondQuoted'
+                elif p[1]:
+                    klass = 'FEscQuoted' if quoted else 'FEscBare'
+                else:
+                    klass = 'FRawQuoted' if quoted else 'FRawBare'
+                site = (line, klass, p[2], p[3])
+                if site not in self.sites:
+                    self.sites.append(site)
+
+    # ---- walking a function
+    def walk(self, key: str, const_params: dict[str, str] | None = None) -> ast.FunctionDef:
+        fn = self.funcs.get(key)
+        if fn is None:
+            raise TranslateError(f'{self.rel}: function {key} not found')
+        env: dict[str, str] = {}
+        for a in fn.args.args:
+            ann = ast.unparse(a.annotation) if a.annotation is not None else ''
+            if a.arg in ('indent', 'start_indent'):
+                env[a.arg] = 'layout'
+            elif a.arg in self.file_names or a.arg in ('self', 'cls'):
+                continue
+            elif ann == 'str':
+                env[a.arg] = (const_params or {}).get(a.arg, 'TyStr')
+            elif ann in ('int', 'float', 'bool'):
+                env[a.arg] = 'TyNum'
+            else:
+                env[a.arg] = 'TyWord'
+        tpl: dict[str, list] = {}
+        cond: dict[str, str] = {}
+        self._block(fn.body, env, tpl, cond, key)
+        return fn
+
+    def _is_write(self, st: ast.stmt) -> ast.AST | None:
+        for nm in self.file_names:
+            a = _is_file_write(st, nm)
+            if a is not None:
+                return a
+        return None
+
+    def _block(self, stmts: list[ast.stmt], env: dict[str, str], tpl: dict[str, list], cond: dict[str, str], key: str) -> None:
+        for st in stmts:
+            where = f'{key} line {st.lineno}'
+            a = self._is_write(st)
+            if a is not None:
+                self.record(self.pieces(a, env, tpl, where), st.lineno, cond)
+                continue
+            if isinstance(st, ast.If):
+                # VMT: if _needs_quotes(x): x = f'"{x}"'
+                t = st.test
+                if isinstance(t, ast.Call) and isinstance(t.func, ast.Name) and t.func.id.startswith('_needs_quotes') and len(t.args) == 1 \
+                        and isinstance(t.args[0], ast.Name) and len(st.body) == 1 and not st.orelse and isinstance(st.body[0], ast.Assign) \
+                        and ast.unparse(st.body[0].targets[0]) == t.args[0].id and ast.unparse(st.body[0].value) == f"""f'"{{{t.args[0].id}}}"'""":
+                    cond[t.args[0].id] = t.func.id
+                    continue
+                self._block(st.body, env, tpl, cond, key)
+                self._block(st.orelse, env, tpl, cond, key)
+                continue
+            if isinstance(st, ast.For):
+                tgt, it = st.target, st.iter
+                if isinstance(tgt, ast.Name):
+                    ty = 'TyWord'
+                    if isinstance(it, ast.Attribute):
+                        anns = self.ann.get(it.attr, set())
+                        if any(re.search(r'\bstr\b', x) for x in anns):
+                            ty = 'TyStr'
+                    env[tgt.id] = ty
+                elif isinstance(tgt, ast.Tuple) and isinstance(it, (ast.List, ast.Tuple)) and all(
+                        isinstance(el, ast.Tuple) and len(el.elts) == len(tgt.elts) for el in it.elts):
+                    # a literal table of rows: a column of string constants is a fixed vocabulary
+                    for col, x in enumerate(tgt.elts):
+                        cells = [el.elts[col] for el in it.elts]
+                        if all(isinstance(c, ast.Constant) and isinstance(c.value, str) for c in cells):
+                            env[x.id] = 'TyWord'
+                        else:
+                            kinds = {self.type_of(c, env, where) for c in cells}
+                            env[x.id] = kinds.pop() if len(kinds) == 1 else 'TyWord'
+                elif isinstance(tgt, ast.Tuple) and isinstance(it, ast.Call) and isinstance(it.func, ast.Attribute) and it.func.attr == 'items':
+                    base = it.func.value
+                    if isinstance(base, ast.Name) and base.id in self.const_tables:
+                        for x in tgt.elts:
+                            env[x.id] = 'TyWord'
+                    else:
+                        anns = self.ann.get(base.attr, set()) if isinstance(base, ast.Attribute) else set()
+                        ty = 'TyStr' if any(re.search(r'\bstr\b', x) for x in anns) else 'TyWord'
+                        for x in tgt.elts:
+                            env[x.id] = ty
+                self._block(st.body, env, tpl, cond, key)
+                continue
+            if isinstance(st, ast.Assign) and len(st.targets) == 1 and isinstance(st.targets[0], ast.Name):
+                nm = st.targets[0].id
+                v = st.value
+                if isinstance(v, (ast.JoinedStr, ast.IfExp)) or (isinstance(v, ast.Constant) and isinstance(v.value, str)):
+                    try:
+                        alts = self.pieces(v, env, tpl, where)
+                    except TranslateError:
+                        alts = None
+                    if alts is not None:
+                        tpl[nm] = tpl.get(nm, []) + alts
+                        continue
+                if isinstance(v, ast.Attribute):
+                    env[nm] = self._kind(v.attr) if self._kind(v.attr) != '?' else 'TyWord'
+                elif isinstance(v, ast.Name) and v.id in env:
+                    env[nm] = env[v.id]
+                else:
+                    env.setdefault(nm, 'TyWord')
+                continue
+            if isinstance(st, (ast.Expr, ast.Return, ast.Pass, ast.Assert, ast.AnnAssign, ast.AugAssign, ast.Raise)):
+                if any(isinstance(n, ast.Call) and isinstance(n.func, ast.Attribute) and n.func.attr == 'write'
+                       and isinstance(n.func.value, ast.Name) and n.func.value.id in self.file_names for n in ast.walk(st)):
+                    raise TranslateError(f'{self.rel}: {where}: write in a position that is not modelled')
+                continue
+            if isinstance(st, (ast.With, ast.Try, ast.While)):
+                raise TranslateError(f'{self.rel}: {where}: statement {type(st).__name__} not modelled in a text writer')
+
+    def const_callers(self, method: str, param_index: int) -> bool:
+        """Every call `X.<method>(...)` in the module passes a string literal at the given position."""
+        ok = False
+        for n in ast.walk(self.tree):
+            if isinstance(n, ast.Call) and isinstance(n.func, ast.Attribute) and n.func.attr == method and len(n.args) > param_index:
+                if not (isinstance(n.args[param_index], ast.Constant) and isinstance(n.args[param_index].value, str)):
+                    return False
+                ok = True
+        return ok
+
+
+def _coq_sites(name: str, sites: list[tuple[int, str, str, str]]) -> str:
+    body = ';\n'.join(f'  mkSite {ln} {k} {t}   (* {src} *)' if False else f'  mkSite {ln} {k} {t}' for ln, k, t, src in sites)
+    return f'Definition {name} : list fsite := [\n{body}\n].'
+
+
+def _snd_stack_census(fn: ast.FunctionDef, parse_one: ast.FunctionDef, init: ast.FunctionDef) -> tuple[list, list]:
+    """Writer: (block name written, attribute guarding the block, attribute serialised into it).
+    Reader: (block name looked up, attribute the result is stored in)."""
+    def self_attr(e: ast.AST) -> str | None:
+        return e.attr if isinstance(e, ast.Attribute) and isinstance(e.value, ast.Name) and e.value.id == 'self' else None
+    written: list[tuple[str, str, str]] = []
+
+    def block_name(text: str) -> str | None:
+        m = re.fullmatch(r'\s*([A-Za-z_]+)\s*\{\s*', text)
+        return m.group(1) if m else None
+
+    def scan(stmts: list[ast.stmt]) -> None:
+        for st in stmts:
+            if isinstance(st, ast.If):
+                guard = self_attr(st.test)
+                names = []
+                srcs = []
+                for sub in st.body:
+                    a = _is_file_write(sub)
+                    if a is not None and isinstance(a, ast.Constant) and isinstance(a.value, str):
+                        b = block_name(a.value)
+                        if b:
+                            names.append(b)
+                    if isinstance(sub, ast.For) and any(isinstance(n, ast.Attribute) and n.attr == 'serialise' for n in ast.walk(sub)):
+                        srcs.append(self_attr(sub.iter) or ast.unparse(sub.iter))
+                if guard and srcs:
+                    if len(names) != 1 or len(srcs) != 1:
+                        raise TranslateError(f'sndscript.py: Sound.export line {st.lineno}: operator stack block not recognised')
+                    written.append((names[0], guard, srcs[0]))
+                else:
+                    scan(st.body)
+                    scan(st.orelse)
+            elif isinstance(st, ast.For):
+                # for name, stack in [('start_stack', self.stack_start), ...]: if not stack: continue; write name; serialise stack
+                if isinstance(st.iter, (ast.List, ast.Tuple)) and isinstance(st.target, ast.Tuple) and len(st.target.elts) == 2 \
+                        and any(isinstance(n, ast.Attribute) and n.attr == 'serialise' for n in ast.walk(st)):
+                    nm_var, st_var = (x.id for x in st.target.elts)
+                    ser = [ast.unparse(n.iter) for n in ast.walk(st) if isinstance(n, ast.For) and n is not st]
+                    guards = [ast.unparse(n.test) for n in ast.walk(st) if isinstance(n, ast.If)]
+                    name_written = any(isinstance(n, ast.FormattedValue) and isinstance(n.value, ast.Name) and n.value.id == nm_var for n in ast.walk(st))
+                    if ser != [st_var] or not name_written or not all(g in (f'not {st_var}', st_var) for g in guards):
+                        raise TranslateError(f'sndscript.py: Sound.export line {st.lineno}: operator stack loop not recognised')
+                    for el in st.iter.elts:
+                        if not (isinstance(el, ast.Tuple) and len(el.elts) == 2 and isinstance(el.elts[0], ast.Constant) and self_attr(el.elts[1])):
+                            raise TranslateError(f'sndscript.py: Sound.export line {st.lineno}: operator stack table entry not recognised')
+                        written.append((el.elts[0].value, self_attr(el.elts[1]), self_attr(el.elts[1])))
+                elif any(isinstance(n, ast.Attribute) and n.attr == 'serialise' for n in ast.walk(st)):
+                    raise TranslateError(f'sndscript.py: Sound.export line {st.lineno}: serialise loop outside a recognised stack block')
+    scan(fn.body)
+    # reader: a, b, c = (Keyvalues(stack_name, [... find_children('operator_stacks', stack_name)]) for stack_name in [names]) ; Sound(..., a, b, c, ...)
+    read: list[tuple[str, str]] = []
+    params = [a.arg for a in init.args.args][1:]
+    ctor = None
+    for n in ast.walk(parse_one):
+        if isinstance(n, ast.Return) and isinstance(n.value, ast.Call) and ast.unparse(n.value.func) in ('Sound', 'cls'):
+            ctor = n.value
+    if ctor is None:
+        raise TranslateError('sndscript.py: Sound.parse_one: constructor call not found')
+    arg_of = {ast.unparse(a): p for p, a in zip(params, ctor.args)}
+    arg_of.update({ast.unparse(k.value): k.arg for k in ctor.keywords})
+    for n in ast.walk(parse_one):
+        if isinstance(n, ast.Assign) and isinstance(n.targets[0], ast.Tuple) and isinstance(n.value, ast.GeneratorExp):
+            g = n.value.generators[0]
+            if isinstance(g.iter, (ast.List, ast.Tuple)) and all(isinstance(x, ast.Constant) for x in g.iter.elts) \
+                    and 'find_children' in ast.unparse(n.value.elt) and len(g.iter.elts) == len(n.targets[0].elts):
+                fc = [c for c in ast.walk(n.value.elt) if isinstance(c, ast.Call) and isinstance(c.func, ast.Attribute) and c.func.attr == 'find_children']
+                if len(fc) != 1 or ast.unparse(fc[0].args[-1]) != ast.unparse(g.target):
+                    raise TranslateError('sndscript.py: Sound.parse_one: stack lookup not recognised')
+                for tgt, nm in zip(n.targets[0].elts, g.iter.elts):
+                    p = arg_of.get(ast.unparse(tgt))
+                    if p is None:
+                        raise TranslateError(f'sndscript.py: Sound.parse_one: `{ast.unparse(tgt)}` is not passed to the constructor')
+                    read.append((nm.value, p))
+    if not read or not written:
+        raise TranslateError('sndscript.py: operator stack blocks not found on both sides')
+    # constructor parameter -> attribute
+    attr_of: dict[str, str] = {}
+    for n in ast.walk(init):
+        if isinstance(n, ast.Assign) and self_attr(n.targets[0]) and isinstance(n.value, ast.Name):
+            attr_of[n.value.id] = self_attr(n.targets[0])
+    # writer attributes are the public names (properties over the private fields the constructor fills)
+    read = [(nm, attr_of.get(p, p).lstrip('_')) for nm, p in read]
+    written = [(a, b.lstrip('_'), c.lstrip('_')) for a, b, c in written]
+    return written, read
+
+
+def translate_text_writers() -> tuple[str, dict]:
+    # ---- soundscripts
+    snd = _TextCensus('sndscript.py')
+    snd.ann.setdefault('sounds', set()).add('list[str]')
+    fn_snd = snd.walk('Sound.export')
+    written, read = _snd_stack_census(fn_snd, snd.funcs['Sound.parse_one'], snd.funcs['Sound.__init__'])
+    # ---- VMT
+    vmt = _TextCensus('vmt.py')
+    vmt.ann.setdefault('real_name', set()).add('str')
+    vmt.ann.setdefault('value', set()).add('str')
+    vmt.ann.setdefault('name', set()).add('str')
+    vmt.ann.setdefault('shader', set()).add('str')
+    vmt.walk('Material.export')
+    vmt.walk('_write_block')
+    # ---- choreo text
+    cho = _TextCensus('choreo.py')
+    tags_const = cho.const_callers('export_text', 3)
+    for key in ('Scene.export_text', 'Actor.export_text', 'Channel.export_text', 'Event.export_text', 'FlexAnimTrack.export_text'):
+        cho.walk(key)
+    # str parameters: Tag.export_text(file, indent, tags, block_name), Curve.export_text(file, indent, name)
+    curve_const = all(isinstance(n.args[2], ast.Constant) for n in ast.walk(cho.tree)
+                      if isinstance(n, ast.Call) and isinstance(n.func, ast.Attribute) and n.func.attr == 'export_text' and len(n.args) == 3
+                      and isinstance(n.func.value, ast.Attribute) and n.func.value.attr == 'ramp')
+    cho.walk('Tag.export_text', {'block_name': 'TyConst' if tags_const else 'TyStr'})
+    cho.walk('Curve.export_text', {'name': 'TyConst' if curve_const else 'TyStr'})
+
+    def cs(s: str) -> str:
+        return _coq_bytes(s.encode('ascii'))
+    lines = [
+        '(* GENERATED by translate/c20_formats.py from sndscript.py (Sound.export, Sound.parse_one), vmt.py (Material.export, _write_block),',
+        '   choreo.py (the export_text methods). Do not edit. *)',
+        'From Coq Require Import NArith List.', 'Import ListNotations.',
+        'From SV Require Import Fmt.TextFields.',
+        _coq_sites('snd_fields', snd.sites),
+        _coq_sites('vmt_fields', vmt.sites),
+        _coq_sites('cho_fields', cho.sites),
+        'Definition snd_stacks_written : list (list N * list N * list N) := ['
+        + '; '.join(f'({cs(a)}, {cs(b)}, {cs(c)})' for a, b, c in written) + '].   (* block name, guarding attribute, serialised attribute *)',
+        'Definition snd_stacks_read : list (list N * list N) := ['
+        + '; '.join(f'({cs(a)}, {cs(b)})' for a, b in read) + '].   (* block name, attribute it is read into *)',
+        '',
+    ]
+    side = {'sndscript': [list(s) for s in snd.sites], 'vmt': [list(s) for s in vmt.sites], 'choreo': [list(s) for s in cho.sites],
+            'stacks_written': written, 'stacks_read': read,
+            'digests': {'Sound.export': ast_digest(fn_snd)}}
+    return '\n'.join(lines), side
+
+
+# ================================================================================================ binary choreo: width paths
+
+_BIN_CLASSES = ['Scene', 'Actor', 'Channel', 'Event', 'FlexAnimTrack', 'Curve', 'Tag', 'TimingTag', 'AbsoluteTag']
+
+
+def _fmt_widths(fmt: str, what: str) -> list[int]:
+    body = fmt[1:] if fmt[:1] in '<>=!@' else fmt
+    if fmt[:1] not in '<>=!' and len(re.findall(r'[A-Za-z?]', body)) > 1:
+        raise TranslateError(f'choreo.py: {what}: native-aligned multi-field struct format {fmt!r}')
+    out: list[int] = []
+    pos = 0
+    for m in re.finditer(r'(\d*)([A-Za-z?])', body):
+        if m.start() != pos:
+            raise TranslateError(f'choreo.py: {what}: cannot parse struct format {fmt!r}')
+        pos = m.end()
+        cnt, code = m.group(1), m.group(2)
+        if code == 's':
+            out.append(int(cnt or '1'))
+            continue
+        w = {'b': 1, 'B': 1, '?': 1, 'c': 1, 'h': 2, 'H': 2, 'i': 4, 'I': 4, 'l': 4, 'L': 4, 'f': 4, 'q': 8, 'Q': 8, 'd': 8}.get(code)
+        if w is None:
+            raise TranslateError(f'choreo.py: {what}: struct code {code!r} not modelled')
+        out.extend([w] * int(cnt or '1'))
+    if pos != len(body):
+        raise TranslateError(f'choreo.py: {what}: cannot parse struct format {fmt!r}')
+    return out
+
+
+class _BinPaths:
+    """Enumerate, for a binary writer or reader method, every sequence of field widths / sub-record calls / loops it can
+    emit or consume (both arms of every `if`, `return` ends a path; a loop is one token holding the paths of its body)."""
+
+    def __init__(self, tree: ast.Module) -> None:
+        self.classes = {n.name: n for n in tree.body if isinstance(n, ast.ClassDef)}
+        self.ann: dict[tuple[str, str], str] = {}
+        self.classvars: dict[str, dict[str, str]] = {}
+        for c in self.classes.values():
+            for st in c.body:
+                if isinstance(st, ast.AnnAssign) and isinstance(st.target, ast.Name):
+                    a = ast.unparse(st.annotation)
+                    if st.value is not None and isinstance(st.value, ast.Call) and ast.unparse(st.value.func) == 'struct.Struct':
+                        self.classvars.setdefault(st.target.id, {})[c.name] = st.value.args[0].value
+                    else:
+                        self.ann[(c.name, st.target.id)] = a
+
+    def ann_of(self, cur: str, attr: str) -> str:
+        c = self.classes.get(cur.split('.')[0].split(' ')[0])
+        while c is not None:
+            if (c.name, attr) in self.ann:
+                return self.ann[(c.name, attr)]
+            c = self.classes.get(c.bases[0].id) if c.bases and isinstance(c.bases[0], ast.Name) else None
+        return ''
+
+    def elem_class(self, e: ast.AST, env: dict[str, str], cur: str) -> str:
+        """Class whose export_binary / parse_binary is called through expression e."""
+        if isinstance(e, ast.Name):
+            if e.id in ('cls',):
+                return 'self'
+            if e.id in self.classes:
+                return e.id if e.id in _BIN_CLASSES else self._base(e.id)
+            if e.id in env:
+                return env[e.id]
+        if isinstance(e, ast.Attribute) and isinstance(e.value, ast.Name) and e.value.id == 'self':
+            a = self.ann_of(cur, e.attr)
+            for nm in self.classes:
+                if re.fullmatch(rf'{nm}', a):
+                    return nm if nm in _BIN_CLASSES else self._base(nm)
+        raise TranslateError(f'choreo.py: {cur}: cannot tell which class `{ast.unparse(e)}` is')
+
+    def _base(self, nm: str) -> str:
+        # subclasses share the methods of their base (TimingTag / AbsoluteTag -> Tag, GestureEvent ... -> Event)
+        c = self.classes[nm]
+        while c.bases and isinstance(c.bases[0], ast.Name) and c.bases[0].id in self.classes:
+            c = self.classes[c.bases[0].id]
+        return c.name
+
+    def list_elem(self, e: ast.AST, cur: str) -> str | None:
+        if isinstance(e, ast.Attribute) and isinstance(e.value, ast.Name) and e.value.id == 'self':
+            m = re.fullmatch(r'list\[(\w+)\]( \| None)?', self.ann_of(cur, e.attr))
+            if m and m.group(1) in self.classes:
+                return m.group(1) if m.group(1) in _BIN_CLASSES else self._base(m.group(1))
+        return None
+
+    def io_tokens(self, node: ast.AST, env: dict[str, str], cur: str, side: str) -> list:
+        """Tokens of the I/O calls inside one expression / simple statement, in source order."""
+        found: list[tuple[int, int, list]] = []
+        skip: set[int] = set()
+        for n in ast.walk(node):
+            if id(n) in skip or not isinstance(n, ast.Call):
+                continue
+            f = ast.unparse(n.func)
+            where = f'{cur} line {n.lineno}'
+            toks: list | None = None
+            if side == 'w' and f == 'file.write' and len(n.args) == 1:
+                a = n.args[0]
+                for sub in ast.walk(a):
+                    skip.add(id(sub))
+                if isinstance(a, ast.Call) and ast.unparse(a.func) == 'struct.pack' and isinstance(a.args[0], ast.Constant):
+                    toks = _fmt_widths(a.args[0].value, where)
+                elif isinstance(a, ast.Call) and isinstance(a.func, ast.Attribute) and a.func.attr == 'pack' \
+                        and isinstance(a.func.value, ast.Attribute) and a.func.value.attr in self.classvars:
+                    toks = [('var', a.func.value.attr)]
+                elif isinstance(a, ast.Constant) and isinstance(a.value, bytes):
+                    toks = [len(a.value)]
+                elif isinstance(a, ast.IfExp) and all(isinstance(x, ast.Constant) and isinstance(x.value, bytes) for x in (a.body, a.orelse)) \
+                        and len(a.body.value) == len(a.orelse.value):
+                    toks = [len(a.body.value)]
+                else:
+                    raise TranslateError(f'choreo.py: {where}: file.write(`{ast.unparse(a)[:60]}`) not recognised')
+            elif side == 'r' and f == 'binformat.struct_read' and len(n.args) == 2:
+                a = n.args[0]
+                if isinstance(a, ast.Constant) and isinstance(a.value, str):
+                    toks = _fmt_widths(a.value, where)
+                elif isinstance(a, ast.Attribute) and a.attr in self.classvars:
+                    toks = [('var', a.attr)]
+                else:
+                    raise TranslateError(f'choreo.py: {where}: struct_read format `{ast.unparse(a)}` not recognised')
+            elif side == 'r' and f == 'file.read' and len(n.args) == 1:
+                if not (isinstance(n.args[0], ast.Constant) and isinstance(n.args[0].value, int)):
+                    raise TranslateError(f'choreo.py: {where}: file.read of a computed size')
+                toks = [n.args[0].value]
+            elif isinstance(n.func, ast.Attribute) and n.func.attr == ('export_binary' if side == 'w' else 'parse_binary') \
+                    and n.args and ast.unparse(n.args[0]) == 'file':
+                c = self.elem_class(n.func.value, env, where)
+                toks = [('call', cur.split('.')[0] if c == 'self' else c)]
+            elif any(isinstance(x, ast.Name) and x.id == 'file' for x in ast.walk(n)) and f not in ('BytesIO', 'file.getvalue') \
+                    and not any(isinstance(x, ast.Call) and x is not n and any(isinstance(y, ast.Name) and y.id == 'file' for y in ast.walk(x)) for x in ast.walk(n)):
+                raise TranslateError(f'choreo.py: {where}: `{ast.unparse(n)[:60]}` uses the file in a way that is not modelled')
+            if toks is not None:
+                found.append((n.lineno, n.col_offset, toks))
+        found.sort(key=lambda t: (t[0], t[1]))
+        return [t for _, _, ts in found for t in ts]
+
+    def paths(self, stmts: list[ast.stmt], env: dict[str, str], cur: str, side: str) -> set[tuple]:
+        """Set of (tokens..., done?) with done = path ended by return."""
+        acc: set[tuple] = {()}
+        done: set[tuple] = set()
+        for st in stmts:
+            if not acc:
+                break
+            if isinstance(st, ast.If):
+                pre = tuple(self.io_tokens(st.test, env, cur, side))
+                a = self._sub(st.body, env, cur, side)
+                b = self._sub(st.orelse, env, cur, side)
+                new: set[tuple] = set()
+                for p in acc:
+                    for q, fin in a | b:
+                        (done if fin else new).add(p + pre + q)
+                acc = new
+            elif isinstance(st, (ast.For, ast.While)):
+                if isinstance(st, ast.For):
+                    el = self.list_elem(st.iter, cur)
+                    if el and isinstance(st.target, ast.Name):
+                        env = dict(env, **{st.target.id: el})
+                body = self._sub(st.body, env, cur, side)
+                if any(fin for _, fin in body):
+                    raise TranslateError(f'choreo.py: {cur} line {st.lineno}: return inside a loop')
+                bp = frozenset(q for q, _ in body)
+                if bp != {()}:
+                    acc = {p + (('loop', tuple(sorted(bp, key=repr))),) for p in acc}
+            elif isinstance(st, ast.Return):
+                toks = tuple(self.io_tokens(st, env, cur, side)) if st.value is not None else ()
+                done |= {p + toks for p in acc}
+                acc = set()
+            elif isinstance(st, ast.Raise):
+                acc = set()
+            elif isinstance(st, (ast.Try, ast.With, ast.Match)):
+                raise TranslateError(f'choreo.py: {cur} line {st.lineno}: statement {type(st).__name__} not modelled')
+            else:
+                # list comprehension over range(...) containing reads = a loop
+                toks: list = []
+                comps = [n for n in ast.walk(st) if isinstance(n, ast.ListComp)]
+                inner_ids: set[int] = set()
+                for lc in comps:
+                    t = self.io_tokens(lc.elt, env, cur, side)
+                    if t:
+                        for sub in ast.walk(lc):
+                            inner_ids.add(id(sub))
+                        toks.append(('loop', (tuple(t),)))
+                if comps and toks:
+                    rest = [n for n in ast.walk(st) if isinstance(n, ast.Call) and id(n) not in inner_ids]
+                    if any(self.io_tokens(n, env, cur, side) for n in rest if not any(isinstance(x, ast.ListComp) for x in ast.walk(n))):
+                        raise TranslateError(f'choreo.py: {cur} line {st.lineno}: reads mixed with a comprehension')
+                else:
+                    toks = self.io_tokens(st, env, cur, side)
+                acc = {p + tuple(toks) for p in acc}
+        return {(p, False) for p in acc} | {(p, True) for p in done}
+
+    def _sub(self, stmts, env, cur, side) -> set[tuple]:
+        return self.paths(stmts, env, cur, side) if stmts else {((), False)}
+
+    def var_fmt(self, cname: str, var: str) -> str:
+        c = self.classes.get(cname)
+        while c is not None:
+            if c.name in self.classvars.get(var, {}):
+                return self.classvars[var][c.name]
+            c = self.classes.get(c.bases[0].id) if c.bases and isinstance(c.bases[0], ast.Name) else None
+        raise TranslateError(f'choreo.py: class-level struct format {var} not found for {cname}')
+
+    def method_paths(self, cname: str, mname: str, side: str) -> list[tuple]:
+        c = self.classes[cname]
+        fn = None
+        while c is not None and fn is None:
+            fn = next((f for f in c.body if isinstance(f, ast.FunctionDef) and f.name == mname), None)
+            if fn is None:
+                c = self.classes.get(c.bases[0].id) if c.bases and isinstance(c.bases[0], ast.Name) else None
+        if fn is None:
+            raise TranslateError(f'choreo.py: {cname}.{mname} not found')
+
+        def resolve(p: tuple) -> tuple:
+            out: list = []
+            for t in p:
+                if isinstance(t, tuple) and t[0] == 'var':
+                    out.extend(_fmt_widths(self.var_fmt(cname, t[1]), f'{cname}.{t[1]}'))
+                elif isinstance(t, tuple) and t[0] == 'loop':
+                    out.append(('loop', tuple(sorted({resolve(q) for q in t[1]}, key=repr))))
+                else:
+                    out.append(t)
+            return tuple(out)
+        ps = {resolve(p) for p, _ in self.paths(fn.body, {}, f'{c.name}.{mname}', side)}
+        return sorted(ps, key=repr)
+
+    def kind_tests(self) -> tuple[list[int], list[int], dict[str, int]]:
+        """Event kinds with extra fields: the writer tests the class (isinstance), the reader the type number."""
+        enum_vals: dict[str, int] = {}
+        for st in self.classes['EventType'].body:
+            if isinstance(st, ast.Assign) and isinstance(st.value, ast.Constant) and isinstance(st.value.value, int):
+                enum_vals[st.targets[0].id] = st.value.value
+        ev = self.classes['Event']
+        w_fn = next(f for f in ev.body if isinstance(f, ast.FunctionDef) and f.name == 'export_binary')
+        r_fn = next(f for f in ev.body if isinstance(f, ast.FunctionDef) and f.name == 'parse_binary')
+        names: dict[str, int] = {}
+        w: list[int] = []
+        for n in ast.walk(w_fn):
+            if isinstance(n, ast.If) and isinstance(n.test, ast.Call) and ast.unparse(n.test.func) == 'isinstance' and ast.unparse(n.test.args[0]) == 'self':
+                cls = self.classes.get(ast.unparse(n.test.args[1]))
+                member = None
+                for st in (cls.body if cls else []):
+                    if isinstance(st, ast.AnnAssign) and isinstance(st.target, ast.Name) and st.target.id == 'type' and isinstance(st.value, ast.Call):
+                        for kw in st.value.keywords:
+                            if kw.arg == 'default' and isinstance(kw.value, ast.Attribute) and ast.unparse(kw.value.value) == 'EventType':
+                                member = kw.value.attr
+                if member is None or member not in enum_vals:
+                    raise TranslateError(f'choreo.py: Event.export_binary line {n.lineno}: class test `{ast.unparse(n.test)}` has no EventType')
+                w.append(enum_vals[member])
+                names[member] = enum_vals[member]
+        r: list[int] = []
+        for n in ast.walk(r_fn):
+            if isinstance(n, ast.If) and isinstance(n.test, ast.Compare) and ast.unparse(n.test.left) == 'event_type' and len(n.test.ops) == 1 \
+                    and isinstance(n.test.ops[0], ast.Is) and isinstance(n.test.comparators[0], ast.Attribute) \
+                    and ast.unparse(n.test.comparators[0].value) == 'EventType':
+                m = n.test.comparators[0].attr
+                if m not in enum_vals:
+                    raise TranslateError(f'choreo.py: Event.parse_binary: unknown EventType.{m}')
+                r.append(enum_vals[m])
+                names[m] = enum_vals[m]
+        return sorted(set(w)), sorted(set(r)), names
+
+
+def translate_choreo_bin() -> tuple[str, dict]:
+    tree = ast.parse(src_text('choreo.py'))
+    bp = _BinPaths(tree)
+    calls = {c: i for i, c in enumerate(_BIN_CLASSES)}
+
+    def tok(t) -> str:
+        if isinstance(t, int):
+            return f'TW {t}'
+        if t[0] == 'call':
+            if t[1] not in calls:
+                raise TranslateError(f'choreo.py: binary record of class {t[1]} is not in the census')
+            return f'TCall {calls[t[1]]}'
+        if t[0] == 'loop':
+            return 'TLoop [' + '; '.join('[' + '; '.join(tok(x) for x in p) + ']' for p in t[1]) + ']'
+        raise TranslateError(f'choreo.py: token {t!r}')
+    per: dict[str, dict] = {}
+    lines = [
+        '(* GENERATED by translate/c20_formats.py from /repo/src/srctools/choreo.py (export_binary / parse_binary of the BVCD classes). Do not edit. *)',
+        'From Coq Require Import NArith List.', 'Import ListNotations.',
+        'From SV Require Import Fmt.ChoreoBin.',
+    ]
+    for c in _BIN_CLASSES:
+        w = bp.method_paths(c, 'export_binary', 'w')
+        r = bp.method_paths(c, 'parse_binary', 'r')
+        per[c] = {'writer': [repr(p) for p in w], 'reader': [repr(p) for p in r]}
+        lines.append(f'Definition cb_{c}_w : list (list btok) := [' + '; '.join('[' + '; '.join(tok(t) for t in p) + ']' for p in w) + '].')
+        lines.append(f'Definition cb_{c}_r : list (list btok) := [' + '; '.join('[' + '; '.join(tok(t) for t in p) + ']' for p in r) + '].')
+    lines.append('Definition cb_classes : list (list (list btok) * list (list btok)) := [' + '; '.join(f'(cb_{c}_w, cb_{c}_r)' for c in _BIN_CLASSES) + '].')
+    kw, kr, names = bp.kind_tests()
+    lines.append(f'Definition cb_kinds_w : list N := [{"; ".join(str(x) for x in kw)}]%N.   (* EventType of the classes Event.export_binary tests with isinstance *)')
+    lines.append(f'Definition cb_kinds_r : list N := [{"; ".join(str(x) for x in kr)}]%N.   (* EventType members Event.parse_binary tests *)')
+    for nm in ('Gesture', 'Loop', 'Speak'):
+        lines.append(f'Definition cb_type_{nm.lower()} : N := {names.get(nm, 255)}%N.')
+    lines.append('')
+    return '\n'.join(lines), {'paths': per, 'class_formats': bp.classvars, 'kinds': names}
+
+
+GEN = {'CmdSeqFmt_gen': translate_cmdseq, 'SmdTpl_gen': translate_smd, 'ScenesImg_gen': translate_scenes_image,
+       'TextFields_gen': translate_text_writers, 'ChoreoBin_gen': translate_choreo_bin}
